@@ -725,6 +725,47 @@ def run(run):
                     run.count('codec_yields_injected', mon.yields)
         finally:
             sys.setswitchinterval(old_si)
+        # and decided systematically for one switch: thread A's call is
+        # stopped at each of its statements in turn while thread B encodes /
+        # decodes another value
+        if not errors:
+            from ..probes.linemon import PreemptEverywhere
+            pe = PreemptEverywhere(['minecraft/networking/types/basic.py'],
+                                   max_k=80)
+            for T, name, _nom in types:
+                for va, vb in ((300, 2 ** 28 + 5), (2 ** 31 - 1, 128),
+                               (16384, 2 ** 21)):
+                    ea, eb = ref.encode(va), ref.encode(vb)
+
+                    def enc(v):
+                        buf = PacketBuffer()
+                        T.send(v, buf)
+                        return buf.get_writable()
+
+                    def judge(k, ra, rb, T=T, name=name, va=va, vb=vb, ea=ea,
+                              eb=eb, what='encode'):
+                        if ra != ('ok', ea) or rb != ('ok', eb):
+                            return {'type': name, 'op': what, 'values':
+                                    (va, vb), 'stopped_after_statements': k,
+                                    'thread_a': repr(ra), 'thread_b': repr(rb)}
+                    wit = pe.run(lambda: enc(va), lambda: enc(vb), judge)
+                    if not wit:
+                        def judge_d(k, ra, rb, name=name, va=va, vb=vb):
+                            if ra != ('ok', va) or rb != ('ok', vb):
+                                return {'type': name, 'op': 'decode',
+                                        'values': (va, vb),
+                                        'stopped_after_statements': k,
+                                        'thread_a': repr(ra),
+                                        'thread_b': repr(rb)}
+                        wit = pe.run(
+                            lambda: T.read(CountingStream(ea)),
+                            lambda: T.read(CountingStream(eb)), judge_d)
+                    if wit:
+                        errors.append(wit)
+                        break
+                if errors:
+                    break
+            run.count('codec_preemption_points', pe.points)
         if errors:
             run.violation('encode/concurrent', 'encodings produced by threads '
                           'running at the same time differ from the canonical '
